@@ -380,60 +380,69 @@ Proof.
   apply parse_only_mbind; [apply parse_only_handle; reflexivity|intros; apply parse_only_ret].
 Qed.
 
-Lemma dfs_missing_parse_only o : forall fields result unprov s, parse_only (dfs_missing o fields result unprov s).
+Lemma mfold_parse_only {S E} (step : S -> E -> M S) :
+  (forall st e s, parse_only (step st e s)) -> forall l st s, parse_only (mfold step l st s).
 Proof.
-  induction fields as [|[k f] rest IH]; intros result unprov s; cbn [dfs_missing]; [apply parse_only_ret|].
-  destruct (has_key (f_name f) result); [apply IH|].
+  intros H. induction l as [|e r IH]; intros st s; cbn [mfold]; [apply parse_only_ret|].
+  apply parse_only_mbind; [apply H|intros; apply IH].
+Qed.
+
+Lemma dfs_missing_parse_only o fields result unprov s : parse_only (dfs_missing o fields result unprov s).
+Proof.
+  unfold dfs_missing. apply mfold_parse_only. clear. intros [result unprov] [k f] s. unfold dfs_missing_step. cbn [snd].
+  destruct (has_key (f_name f) result); [apply parse_only_ret|].
   destruct (is_required f o).
-  - apply parse_only_mbind; [apply parse_only_handle; reflexivity|intros; apply IH].
-  - destruct (get_default f o); apply IH.
+  - apply parse_only_mbind; [apply parse_only_handle; reflexivity|intros; apply parse_only_ret].
+  - destruct (get_default f o); apply parse_only_ret.
 Qed.
 
 Lemma deps_check_parse_only o deps result unprov s : parse_only (deps_check o deps result unprov s).
 Proof. unfold deps_check. destruct (filter _ deps); [apply parse_only_ret|apply parse_only_handle; reflexivity]. Qed.
 
-Lemma dfs_loop_parse_only C o depth : forall data result raw addition deps s,
-  parse_only (dfs_loop tr C o depth data result raw addition deps s).
+Lemma dfs_loop_parse_only C o depth data st s : parse_only (dfs_loop tr C o depth data st s).
 Proof.
-  induction data as [|[key value] rest IH]; intros result raw addition deps s; cbn [dfs_loop]; [apply parse_only_ret|].
+  unfold dfs_loop. apply mfold_parse_only. clear. intros [[[result raw] addition] deps] [key value] s.
+  unfold dfs_step.
   destruct (get_field C key) as [f|].
-  - destruct (is_no_input f o); [apply IH|].
+  - destruct (is_no_input f o); [apply parse_only_ret|].
     match goal with |- parse_only (match ?x with _ => _ end _) => destruct x as [prev|] end.
-    + apply parse_only_mbind; [destruct (negb _); [apply parse_only_handle; reflexivity|apply parse_only_ret]|intros; apply IH].
-    + apply parse_only_mbind; [apply parse_value_parse_only|]. intros [r|] s1 _; apply IH.
-  - apply parse_only_mbind; [apply parse_addition_parse_only|intros; apply IH].
+    + apply parse_only_mbind; [destruct (negb _); [apply parse_only_handle; reflexivity|apply parse_only_ret]|intros; apply parse_only_ret].
+    + apply parse_only_mbind; [apply parse_value_parse_only|]. intros [r|] s1 _; apply parse_only_ret.
+  - apply parse_only_mbind; [apply parse_addition_parse_only|intros; apply parse_only_ret].
 Qed.
 
-Lemma ffs_loop_parse_only o depth data : forall fields result used unprov deps s,
-  parse_only (ffs_loop tr o depth data fields result used unprov deps s).
+Lemma ffs_loop_parse_only o depth data fields st s : parse_only (ffs_loop tr o depth data fields st s).
 Proof.
-  induction fields as [|[k f] rest IH]; intros result used unprov deps s; cbn [ffs_loop]; [apply parse_only_ret|].
+  unfold ffs_loop. apply mfold_parse_only. clear. intros [[[result used] unprov] deps] [k f] s.
+  unfold ffs_step. cbn [snd].
   destruct (ffs_lookup _ _ _ _) as [value conflict].
   destruct value as [v|].
-  - destruct (is_no_input f o); [apply IH|].
+  - destruct (is_no_input f o); [apply parse_only_ret|].
     apply parse_only_mbind; [destruct conflict; [apply parse_only_handle; reflexivity|apply parse_only_ret]|].
     intros _ s1 _.
-    apply parse_only_mbind; [apply parse_value_parse_only|]. intros [r|] s2 _; apply IH.
-  - destruct (is_required f o); [|apply IH].
-    apply parse_only_mbind; [apply parse_only_handle; reflexivity|intros; apply IH].
+    apply parse_only_mbind; [apply parse_value_parse_only|]. intros [r|] s2 _; apply parse_only_ret.
+  - destruct (is_required f o); [|apply parse_only_ret].
+    apply parse_only_mbind; [apply parse_only_handle; reflexivity|intros; apply parse_only_ret].
 Qed.
 
-Lemma ffs_fold_parse_only C o : forall data acc s, parse_only (ffs_fold C o data acc s).
+Lemma ffs_prepare_parse_only C o data s : parse_only (ffs_prepare C o data s).
 Proof.
-  induction data as [|[k v] rest IH]; intros acc s; cbn [ffs_fold]; [apply parse_only_ret|].
-  destruct (str_in _ _); [|apply IH].
-  destruct (assoc _ acc) as [prev|]; [|apply IH].
-  destruct (negb _ && negb _); [|apply IH].
-  apply parse_only_mbind; [|intros; apply IH].
+  unfold ffs_prepare. destruct (c_ci_names C) eqn:E; [apply parse_only_ret|].
+  apply mfold_parse_only. clear. intros acc [k v] s. unfold ffs_fold_step.
+  destruct (str_in _ _); [|apply parse_only_ret].
+  destruct (assoc _ acc) as [prev|]; [|apply parse_only_ret].
+  destruct (o_ignore_alias_conflicts o); [apply parse_only_ret|].
+  apply parse_only_mbind; [|intros; apply parse_only_ret].
+  destruct (negb _); [|apply parse_only_ret].
   destruct (get_field C _) as [f|]; [|apply parse_only_ret].
   destruct (is_no_input f o); [apply parse_only_ret|apply parse_only_handle; reflexivity].
 Qed.
 
-Lemma ffs_addition_parse_only C o : forall data used addition s, parse_only (ffs_addition C o data used addition s).
+Lemma ffs_addition_parse_only C o data used addition s : parse_only (ffs_addition C o data used addition s).
 Proof.
-  induction data as [|[k v] rest IH]; intros used addition s; cbn [ffs_addition]; [apply parse_only_ret|].
-  destruct (str_in k used); [apply IH|].
-  apply parse_only_mbind; [apply parse_addition_parse_only|intros; apply IH].
+  unfold ffs_addition. apply mfold_parse_only. clear. intros addition [k v] s. unfold ffs_add_step.
+  destruct (str_in k used); [apply parse_only_ret|].
+  apply parse_only_mbind; [apply parse_addition_parse_only|intros; apply parse_only_ret].
 Qed.
 
 Lemma parse_data_parse_only C o depth data s : parse_only (parse_data tr C o depth data s).
@@ -445,12 +454,12 @@ Proof.
   intros _ s2 _.
   apply parse_only_mbind.
   - destruct (match o_data_first_search o with Some b => b | None => c_dfs C end).
-    + unfold data_first_parse. apply parse_only_mbind; [apply dfs_loop_parse_only|]. intros [[result addition] deps] s3 _.
+    + unfold data_first_parse. apply parse_only_mbind; [apply dfs_loop_parse_only|]. intros [[[result raw] addition] deps] s3 _.
       apply parse_only_mbind; [apply dfs_missing_parse_only|].
       intros [result2 unprov] s4 _.
       apply parse_only_mbind; [destruct deps; [apply parse_only_ret|apply deps_check_parse_only]|intros; apply parse_only_ret].
     + unfold field_first_parse.
-      apply parse_only_mbind; [unfold ffs_prepare; destruct (c_ci_names C); [apply parse_only_ret|apply ffs_fold_parse_only]|].
+      apply parse_only_mbind; [apply ffs_prepare_parse_only|].
       intros data' s3' _.
       apply parse_only_mbind; [apply ffs_loop_parse_only|]. intros [[[result used] unprov] deps] s3 _.
       apply parse_only_mbind; [destruct deps; [apply parse_only_ret|apply deps_check_parse_only]|]. intros _ s4 _.
